@@ -398,7 +398,11 @@ class iindex(dict):
                     for colid, col in enumerate(values.T):
                         rowids = numpy.where(col == distinct_value)[0]
                         if len(rowids) > 0:
-                            entries[(mapped_value, colid)] = rowids.astype(rowid_dtype)
+                            # Several input values may map to the same output.
+                            entries[(mapped_value, colid)] = union(
+                                entries.get((mapped_value, colid)),
+                                rowids.astype(rowid_dtype),
+                            )
             else:
                 for distinct_value in counts:
                     mapped_value = distinct_value
@@ -408,7 +412,10 @@ class iindex(dict):
                         continue
                     rowids = numpy.where(values == distinct_value)[0]
                     if len(rowids) > 0:
-                        entries[(mapped_value,)] = rowids.astype(rowid_dtype)
+                        # Several input values may map to the same output.
+                        entries[(mapped_value,)] = union(
+                            entries.get((mapped_value,)), rowids.astype(rowid_dtype)
+                        )
         else:
             # This is sometimes faster than repeated numpy.where().
             entries = defaultdict(list)
